@@ -83,6 +83,8 @@ def check(ck, F, rule, crates, floor):
 CROSS = {
     "bit_mask::set_bits": [(0, 2), (1, 3)],
     "bit_iterator::try_for_each_valid_idx": [(3, 1)],
+    "bit_util::get_bit": [(0, 1)],          # get_bit(x.validity(), i): i must include x.offset()
+    "bit_util::get_bit_raw": [(0, 1)],
 }
 
 
